@@ -218,7 +218,7 @@ class Gen:
             # the program ends exactly at (or a few bytes below) the top of the 32-bit address space
             bpa = self.table[cpu]["bpa"]
             tail = [self.ins(cpu), self.data(odd=False)] if r.random() < 0.5 else [self.data(odd=False), self.ins(cpu)]
-            items = [("org", N((0x100000000 - r.choice([16, 32, 64])) // bpa))] + tail
+            items = [("org", N(0x1000))] + tail            # moved to the top by the check module once the size is known
             prog = {"cpu": cpu, "items": items, "shape": shape, "fit_top": r.choice([0, 0, 1, 2, 4])}
             return prog
         else:
